@@ -1,6 +1,7 @@
 package parser
 
 import (
+	"github.com/graphql-go/graphql/verifhook"
 	"fmt"
 
 	"github.com/graphql-go/graphql/gqlerrors"
@@ -1491,6 +1492,7 @@ func loc(parser *Parser, start int) *ast.Location {
 
 // Moves the internal parser object to the next lexed token.
 func advance(parser *Parser) error {
+	verifhook.Count(verifhook.ParserAdvance)
 	parser.PrevEnd = parser.Token.End
 	token, err := parser.LexToken(parser.PrevEnd)
 	if err != nil {
